@@ -23,6 +23,9 @@ PLUGIN_SRC = os.path.join(VERIF, "extractor", "tvfacts.cc")
 CACHE = os.path.join(VERIF, ".cache")
 
 
+BROKEN_NOTES = []
+
+
 class AnalysisBroken(Exception):
     """Raised when the analysis cannot be carried out (exit 2), never a verdict."""
 
@@ -361,8 +364,11 @@ class TU:
             # are pinned on the corpus units
             return r
         if len(r) < floor:
-            raise AnalysisBroken("anchor %s: %d instantiation(s) with a body in unit %s, need >= %d"
-                                 % (qe, len(r), self.name, floor))
+            # recorded, not raised: the other rules of the check still run, so that a change which both removes
+            # an anchor and violates a rule is reported as the violation it is (exit 1), not only as exit 2
+            msg = "anchor %s: %d instantiation(s) with a body in unit %s, need >= %d" % (qe, len(r), self.name, floor)
+            if msg not in BROKEN_NOTES:
+                BROKEN_NOTES.append(msg)
         return r
 
     # ------------------------------------------------------------- hierarchy
